@@ -271,6 +271,21 @@ def c04_rejected_values(res, run, world, rng):
                 res.violation("c04/refusal-changed-storage/rejected-value/%s" % mode, "%s: refused but storage changed" % what, sim=sim)
                 return False
             res.nt("rejected", mode, o.idx, o.sub)
+    # ... and an object whose read fails is never uploaded: not with stale bytes of an earlier transfer either
+    for k, o in sorted(world.om.items()):
+        if o.kind != "usr" or not o.usr[1] or o.usr[0] == 0:
+            continue
+        # leave recognisable bytes in the transfer buffer first
+        dom = world.pick(lambda x: x.kind == "dom" and x.readable and x.size() >= 16)
+        run.transfer(0, make_upload(rng, dom, "blk", {"blksize": 4, "ack": "all"}))
+        for mode, opts in (("normal", {}), ("blk", {"blksize": 7, "ack": "all"})):
+            out = run.transfer(0, make_upload(rng, o, mode, opts))
+            res.evals += 1
+            if out.kind != "abort":
+                res.violation("c04/verdict/unreadable-uploaded/%s" % mode, "%s upload of %04x:%02x (%d bytes, type read fails with %d): outcome %r, reference abort" % (
+                    mode, o.idx, o.sub, o.usr[0], o.usr[1], out), sim=sim)
+                return False
+            res.nt("unreadable", mode, o.idx, o.sub)
     return True
 
 
